@@ -49,7 +49,9 @@ Definition skips (s : suite) : nat := count (view cond_Skips) s.
 Definition all_succeeded (s : suite) : bool := negb (existsb (view cond_NotSucceeded) s).
 
 (* ---- Add / findMatchingTestCase / Collapse ---- *)
-Definition same_key (o c : tcase) : bool := str_eqb (c_name o) (c_name c) && str_eqb (c_class o) (c_class c).
+(* findMatchingTestCase: the match condition (Gen.match_case, regenerated from the Go source) applied to the
+   comparison of the two Names and of the two ClassNames - the key of a case is the PAIR, never a joined form *)
+Definition same_key (o c : tcase) : bool := match_case (str_eqb (c_name o) (c_name c)) (str_eqb (c_class o) (c_class c)).
 
 (* idx := first matching index; if idx >= 0 append the executions there, else append the case *)
 Fixpoint add_one (s : suite) (c : tcase) : suite :=
@@ -151,6 +153,64 @@ Record attempt := mkAttempt { a_run_err : bool; a_data : list datum }.
 Definition run_suite (name : str) (no_output : bool) (a : attempt) : suite :=
   parse_output name no_output (a_run_err a) (a_data a).
 
+(* ---- the cached path of test(): a second `plz test` of an unchanged target ---- *)
+(* the attempts doFlakeRun executes (same loop as flake_loop, on the attempts themselves) *)
+Fixpoint executed_atts (name : str) (no_output : bool) (n : nat) (atts : list attempt) : list attempt :=
+  match n, atts with
+  | S n', a :: r => a :: (if all_succeeded (run_suite name no_output a) then [] else executed_atts name no_output n' r)
+  | _, _ => []
+  end.
+
+(* dummyOutput: "=== RUN DummyTest\n--- PASS: DummyTest (0.00s)\nPASS\n" *)
+Definition dummy_data : list datum := [DGo [(s "DummyTest", GPass)]].
+
+(* moveOutputFile(outputFile, target.TestResultsFile(), dummyOutput): the test directory is rebuilt for every attempt,
+   so what is moved is what the LAST executed attempt left, or the dummy when it left nothing *)
+Definition stored_of (a : attempt) : list datum := match a_data a with [] => dummy_data | ds => ds end.
+
+Definition first_report (name : str) (no_output : bool) (n : nat) (atts : list attempt) : suite :=
+  target_results n (map (run_suite name no_output) atts).
+
+(* if Results.TestCases.AllSucceeded() { cacheOutputFiles } with its `results.Failures() > 0` guard *)
+Definition stored (name : str) (no_output : bool) (n : nat) (atts : list attempt) : option (list datum) :=
+  let r := first_report name no_output n atts in
+  if all_succeeded r && Nat.eqb (failures r) 0
+  then Some (stored_of (last (executed_atts name no_output n atts) (mkAttempt false [])))
+  else None.
+
+(* a results file or a results directory as readTestResultsDir sees it: fs.Walk visits a plain file whatever its
+   name is (the stored file is the dotfile .test_results_<name>) and the entries of a directory in byte order *)
+Inductive rtree := RFile (d : datum) | RDir (entries : list (str * datum)).
+Fixpoint insert_entry (e : str * datum) (l : list (str * datum)) : list (str * datum) :=
+  match l with
+  | [] => [e]
+  | x :: r => if str_ltb (fst x) (fst e) then x :: insert_entry e r else e :: l
+  end.
+Definition sort_entries (l : list (str * datum)) : list (str * datum) := fold_right insert_entry [] l.
+Definition read_tree (t : rtree) : list datum :=
+  match t with RFile d => [d] | RDir l => map snd (sort_entries l) end.
+(* parseTestResultsFile *)
+Definition parse_results_file (t : rtree) : option suite := parse_results (read_tree t) [].
+
+(* cachedTestResults: parseTestResultsFile(target.TestResultsFile()); a parse error or a case that did not
+   succeed sends test() back to running the test *)
+Definition cached_results (ds : list datum) : option suite :=
+  match parse_results ds [] with
+  | Some r => if all_succeeded r then Some r else None
+  | None => None
+  end.
+
+(* the second invocation: the report and whether it came from the stored results ([cached]); a re-run
+   executes the same attempts again (the test is deterministic in its attempt number) *)
+Definition second_report (name : str) (no_output : bool) (n : nat) (atts : list attempt) : suite * bool :=
+  match stored name no_output n atts with
+  | Some ds => match cached_results ds with
+               | Some r => (r, true)
+               | None => (first_report name no_output n atts, false)
+               end
+  | None => (first_report name no_output n atts, false)
+  end.
+
 (* ---- correspondence cases ---- *)
 Definition exec_eqb (a b : exec) : bool :=
   Bool.eqb (e_fail a) (e_fail b) && Bool.eqb (e_err a) (e_err b) && Bool.eqb (e_skip a) (e_skip b).
@@ -168,7 +228,10 @@ Inductive case :=
 | CCount (s : suite) (cnt : list N) (allok : bool)
 | CAdd (a cs obs : suite)
 | CFlake (name : str) (no_output : bool) (n : nat) (atts : list attempt) (obs : suite) (cnt : list N) (passed : bool)
-| CE2E (name : str) (n : nat) (atts : list attempt) (cnt : list N) (passed : bool).
+| CE2E (name : str) (n : nat) (atts : list attempt) (cnt : list N) (passed : bool)
+| CStored (t : rtree) (obs : option suite)
+| CTwice (name : str) (no_output : bool) (n : nat) (atts : list attempt)
+         (cnt1 : list N) (passed1 : bool) (cnt2 : list N) (passed2 : bool) (cached2 : bool).
 
 Definition check (c : case) : bool :=
   match c with
@@ -182,4 +245,10 @@ Definition check (c : case) : bool :=
   | CE2E name n atts cnt ok =>
       let r := target_results n (map (run_suite name false) atts) in
       list_eqb N.eqb (counters r) cnt && Bool.eqb (all_succeeded r) ok
+  | CStored t obs => option_eqb suite_eqb (parse_results_file t) obs
+  | CTwice name no n atts cnt1 ok1 cnt2 ok2 cached2 =>
+      let r1 := first_report name no n atts in
+      let r2 := second_report name no n atts in
+      list_eqb N.eqb (counters r1) cnt1 && Bool.eqb (all_succeeded r1) ok1
+      && list_eqb N.eqb (counters (fst r2)) cnt2 && Bool.eqb (all_succeeded (fst r2)) ok2 && Bool.eqb (snd r2) cached2
   end.
